@@ -20,6 +20,8 @@ def obligations(tier, seed):
         add("c11_lcm_" + t, covers=1, desc="lcm>=0, common multiple, lcm*gcd=|a*b|", bounds="|a|,|b|<=31, " + t)
     if tier == "quick":
         add("c11_lcm_i64", covers=1, desc="lcm>=0, common multiple, lcm*gcd=|a*b|", bounds="|a|,|b|<=31, i64")
+    add("c11_gcd_u8_b100", covers=1, desc="u8 with operands up to 100: products overflow u8 while many lcms fit", bounds="a,b<=100, u8")
+    add("c11_lcm_i8_b100", covers=1, desc="i8 with |operands| up to 100: products overflow i8 while many lcms fit", bounds="|a|,|b|<=100, i8")
     for t in ("u8", "u16", "u32", "u64"):
         add("c11_gcd_" + t, covers=1, desc="unsigned gcd/lcm: divides both, no larger common divisor, lcm*gcd=a*b", bounds="a,b<=31, " + t)
     for t in ("i16", "i32") + (("i64",) if tier == "thorough" else ()):
